@@ -1070,6 +1070,10 @@ class Visitor(ast.NodeVisitor):
         # re-compilation. This final step is skipped if any of the names involved in the comprehension are
         # PLACEHOLDER's.
 
+        # Python evaluates the iterable of the first generator in the enclosing scope, where the targets of
+        # the comprehension do not shadow the outer variables yet.
+        self.visit(node.generators[0].iter)
+
         old_name_to_value = copy.copy(self._name_to_value)
         for target_name in _collect_stored_names(
             [generator.target for generator in node.generators]
@@ -1080,8 +1084,9 @@ class Visitor(ast.NodeVisitor):
         try:
             self.visit(node.elt)
 
-            for generator in node.generators:
-                self.visit(generator.iter)
+            for i, generator in enumerate(node.generators):
+                if i > 0:
+                    self.visit(generator.iter)
 
                 for generator_if in generator.ifs:
                     self.visit(generator_if)
@@ -1101,6 +1106,10 @@ class Visitor(ast.NodeVisitor):
         # The note also explains why we do not use the result of the following visits.
 
         # Please see "NOTE ABOUT NAME 🠒 VALUE STACKING".
+        # Python evaluates the iterable of the first generator in the enclosing scope, where the targets of
+        # the comprehension do not shadow the outer variables yet.
+        self.visit(node.generators[0].iter)
+
         old_name_to_value = copy.copy(self._name_to_value)
         for target_name in _collect_stored_names(
             [generator.target for generator in node.generators]
@@ -1111,8 +1120,9 @@ class Visitor(ast.NodeVisitor):
         try:
             self.visit(node.elt)
 
-            for generator in node.generators:
-                self.visit(generator.iter)
+            for i, generator in enumerate(node.generators):
+                if i > 0:
+                    self.visit(generator.iter)
 
                 for generator_if in generator.ifs:
                     self.visit(generator_if)
@@ -1134,6 +1144,10 @@ class Visitor(ast.NodeVisitor):
         # The note also explains why we do not use the result of the following visits.
 
         # Please see "NOTE ABOUT NAME 🠒 VALUE STACKING".
+        # Python evaluates the iterable of the first generator in the enclosing scope, where the targets of
+        # the comprehension do not shadow the outer variables yet.
+        self.visit(node.generators[0].iter)
+
         old_name_to_value = copy.copy(self._name_to_value)
         for target_name in _collect_stored_names(
             [generator.target for generator in node.generators]
@@ -1144,8 +1158,9 @@ class Visitor(ast.NodeVisitor):
         try:
             self.visit(node.elt)
 
-            for generator in node.generators:
-                self.visit(generator.iter)
+            for i, generator in enumerate(node.generators):
+                if i > 0:
+                    self.visit(generator.iter)
 
                 for generator_if in generator.ifs:
                     self.visit(generator_if)
@@ -1166,6 +1181,10 @@ class Visitor(ast.NodeVisitor):
         # Please see "NOTE ABOUT PLACEHOLDERS AND RE-COMPUTATION".
         # The note also explains why we do not use the result of the following visits.
 
+        # Python evaluates the iterable of the first generator in the enclosing scope, where the targets of
+        # the comprehension do not shadow the outer variables yet.
+        self.visit(node.generators[0].iter)
+
         # Please see "NOTE ABOUT NAME 🠒 VALUE STACKING".
         old_name_to_value = copy.copy(self._name_to_value)
         for target_name in _collect_stored_names(
@@ -1178,8 +1197,9 @@ class Visitor(ast.NodeVisitor):
             self.visit(node.key)
             self.visit(node.value)
 
-            for generator in node.generators:
-                self.visit(generator.iter)
+            for i, generator in enumerate(node.generators):
+                if i > 0:
+                    self.visit(generator.iter)
 
                 for generator_if in generator.ifs:
                     self.visit(generator_if)
